@@ -356,6 +356,77 @@ pub fn lib_made_records(ctx: &mut Ctx) {
     ctx.judge_lib_made = false;
 }
 
+/// A signer that PANICS once (user code unwinding through the library, caught by the caller): the record the panic
+/// unwound through must still answer every accessor, and every LATER call — the same key on another record, other
+/// key types, the decoder — must behave as if nothing had happened (nothing process-wide may stay locked or
+/// poisoned). No claim is made about the content of the record the panic interrupted.
+pub fn signer_panic_probe(ctx: &mut Ctx) {
+    use crate::hist::{apply_build, apply_op};
+    use crate::keys::*;
+    use crate::obs::observe;
+    use std::sync::atomic::Ordering;
+    fn go<KK: KeyKind>(ctx: &mut Ctx, scheme: Scheme) {
+        let fk = FaultKey::new(KK::make(scheme, &secret_from(scheme, OWN)));
+        let other = FaultKey::new(KK::make(scheme, &secret_from(scheme, OTHER)));
+        let ktn = KK::name();
+        let replay = || json!({"kind": "note", "what": "signer-panic-probe", "kt": KK::name()});
+        let e0 = match crate::util::guard(|| apply_build::<FaultKey<KK::K>>(&[BEntry::Udp4(1), BEntry::Add(b"x".to_vec(), Val::U8(1))], &fk)) {
+            Ok(Ok(e)) => e,
+            _ => return,
+        };
+        let ops = [Op::SetUdp4(9), Op::SetSeq(77), Op::Insert(b"y".to_vec(), Val::U8(2)), Op::RemoveKey(b"udp".to_vec()), Op::RemoveInsert(vec![b"x".to_vec()], vec![(b"z".to_vec(), vec![0x01])]), Op::SetPublicKey(PkArg::OfSigner), Op::SetIp("10.0.0.1".parse().unwrap())];
+        for op in ops {
+            let mut victim = e0.clone();
+            fk.panic_instead.store(true, Ordering::SeqCst);
+            fk.fail_at.store(fk.calls.load(Ordering::SeqCst) as i64 + 1, Ordering::SeqCst);
+            let r = crate::util::guard(|| apply_op(&mut victim, &op, &fk, &other).map(|_| ()).map_err(|e| format!("{e:?}")));
+            fk.fail_at.store(-1, Ordering::SeqCst);
+            fk.panic_instead.store(false, Ordering::SeqCst);
+            fk.fired.store(false, Ordering::SeqCst);
+            ctx.count("evaluations");
+            ctx.count("signer-panic-cases");
+            if !matches!(&r, Err(p) if p.contains("injected signer panic")) {
+                // the call did not reach the signer (or the library swallowed the panic): nothing to observe here
+                continue;
+            }
+            if let Err(p) = observe(&victim) {
+                ctx.violate("C03", "panic", &format!("accessor-after-signer-panic/{}", crate::util::panic_sig(&p)), || format!("{ktn}: accessors panic on the record a panicking signer unwound through ({}): {p}", op.name()), replay);
+            }
+            // the same key, another record; then the other key
+            for (who, key) in [("same key", &fk), ("other key", &other)] {
+                let mut e1 = e0.clone();
+                let r2 = crate::util::guard(|| apply_op(&mut e1, &Op::SetTcp4(5), key, &fk).map(|_| ()).map_err(|e| format!("{e:?}")));
+                let healthy = matches!(r2, Ok(Ok(()))) && crate::util::guard(|| e1.verify() && e1.tcp4() == Some(5)).unwrap_or(false);
+                if !healthy {
+                    if let Err(p) = &r2 {
+                        ctx.violate("C03", "panic", &format!("update-after-signer-panic/{}", crate::util::panic_sig(p)), || format!("{ktn}: an update of ANOTHER record ({who}) panics after a signer panicked once in {}: {p}", op.name()), replay);
+                    }
+                    for prop in ["C08", "C05", "C06"] {
+                        ctx.violate(prop, "update-misbehaves-after-a-signer-panic-elsewhere", &format!("{}/{}", op.name(), KK::name()), || format!("{ktn}: after a signer panicked once in {}, set_tcp4 on another record ({who}) gave {r2:?}", op.name()), replay);
+                    }
+                    return;
+                }
+            }
+        }
+    }
+    if cfg!(miri) || !ctx.mine_few(11) {
+        return;
+    }
+    let small = |scheme: Scheme| mk_history(scheme, OWN, OTHER, &Init::Build(vec![BEntry::Udp4(2)]), vec![Step { op: Op::SetTcp4(6), signer: Signer::Own }, Step { op: Op::SetSeq(9), signer: Signer::Other }]);
+    go::<K256K>(ctx, Scheme::Secp);
+    #[cfg(feature = "libsecp")]
+    go::<LibsecpK>(ctx, Scheme::Secp);
+    if cfg!(feature = "ed") {
+        go::<EdK>(ctx, Scheme::Ed);
+        go::<CombK>(ctx, Scheme::Secp);
+    }
+    go::<ToyK>(ctx, Scheme::Toy);
+    // and the plain key types through the complete monitors afterwards
+    for (kt, scheme) in kinds() {
+        run_hist_kt(ctx, kt, false, &small(scheme), &RunOpts::default());
+    }
+}
+
 /// A custom scheme whose signatures alone exceed 300 bytes: every build and update must fail with an error value
 /// (never panic, never hand out a record), in every build profile.
 pub fn long_signature_histories(ctx: &mut Ctx, opts: &RunOpts) {
@@ -412,6 +483,7 @@ pub fn c05(ctx: &mut Ctx) {
     byte_value_histories(ctx, &opts);
     concurrency_probe(ctx, false, true);
     fault_len1(ctx, &opts);
+    signer_panic_probe(ctx);
     fault_histories(ctx, if q { 400 } else { 20_000 }, &opts);
     builder_plans(ctx, &opts);
     if q {
@@ -505,6 +577,7 @@ pub fn c06(ctx: &mut Ctx) {
     //     the size-300 and seq-MAX ones
     exhaustive_len1(ctx, false, &opts, &all);
     concurrency_probe(ctx, false, true);
+    signer_panic_probe(ctx);
     // (2) signer faults by enumeration
     let fault_kinds: Vec<(KT, Scheme)> = kinds()
         .into_iter()
@@ -845,6 +918,7 @@ pub fn c03_hist_part(ctx: &mut Ctx) {
         byte_value_histories(ctx, &opts);
         long_signature_histories(ctx, &opts);
         concurrency_probe(ctx, true, true);
+        signer_panic_probe(ctx);
     }
     if cfg!(miri) {
         // seeded short Toy histories with the complete accessor sweep, until the deadline
